@@ -1,4 +1,6 @@
 import LitexProofs.Axi.LiteRun
+import LitexProofs.Axi.LiteSharedData
+import LitexProofs.Axi.LiteCrossbarData
 /-
   C08 — AXI-Lite (and AXI) interconnect keeps grants and routes until every response has returned.
 
@@ -19,6 +21,13 @@ import LitexProofs.Axi.LiteRun
       sameSlave    SameSlaveWhileLocked: a master with unanswered requests at slave j presents only addresses of j
       noOverflow   a slave holding 255 unanswered requests does not accept another one          (8-bit counters)
   and `Disjoint c` (no address belongs to two slaves; C13 provides this for SoC regions), `0 < c.n`.
+  The write-data theorems (`axl_route_data_partial`, `…_crossbar_partial`) additionally assume `DEnvOK`
+      dataAfterAddr  NoDataBeforeAddr: data is presented only for an accepted address still waiting for it, or for the
+                     address being presented
+      addrHeld       an address whose data went ahead stays presented (same slave) until accepted      (AXI)
+      respAfterData  B is given only after the data                                                    (AXI)
+  and cover single-beat data (AXI-Lite, AXI4 `len = 0`); AXI4 write bursts are covered by co-simulation and the
+  monitor only.  The theorems about the read direction of the AXI4 classes count responses on `last` (`c.full`).
 
   The property as written ("each accepted address reaches the slave chosen by its address … for all schedules") is
   FALSE on the code without `sameSlave`, and the write-data part is false without NoDataBeforeAddr: see the two
@@ -135,6 +144,28 @@ theorem axl_route_partial (c : Cfg) (rd : Bool) (hd : Disjoint c) (hn : 0 < c.n)
 theorem axl_route_crossbar_partial (c : Cfg) (rd : Bool) (hd : Disjoint c) (hn : 0 < c.n) (ins : List DirIn) :
     Holds (Crossbar.machine c rd) c rd false (Crossbar.init c rd) Fifo.empty ins :=
   Crossbar.holds_of_inv c rd hd ins _ _ (Crossbar.inv_reset c rd hn)
+
+/- Full statement of the data part (FALSE on the code, negative witness 2): every write-data handshake reaches the slave
+   of its address, for every AXI-legal master (AXI allows W before AW). -/
+
+/-- **`axl_route_data_partial`** (shared interconnect, single-beat data = AXI-Lite) — address/response part and data
+    part together, for every run from reset: in every cycle up to which the environment has behaved (`EnvOK` and
+    `DEnvOK`: NoDataBeforeAddr, an address whose data went ahead stays presented, B only after the data)
+      * `RouteOK` (as in `axl_route_partial`), and
+      * every write-data handshake at a master is, in the same cycle and with the same payload, a data handshake at
+        exactly the slave of that master's oldest accepted address still waiting for data — or, with no such address,
+        at the slave of the address it is presenting — and every data handshake at a slave is the data of exactly
+        one such master.
+    Together with `RouteOK.addr_m` the address/data pair of a write reaches one and the same slave, chosen by the
+    address. -/
+theorem axl_route_data_partial (c : Cfg) (rd : Bool) (hd : Disjoint c) (hn : 0 < c.n) (ins : List DirIn) :
+    HoldsD (Shared.machine c rd) c rd true (Shared.init c rd) Fifo.empty DGhost.empty ins :=
+  Shared.holdsD_of_inv c rd hd ins _ _ _ (Shared.inv_reset c rd hn) (Shared.dinv_reset c rd)
+
+/-- **`axl_route_data_crossbar_partial`** — the same for the crossbar. -/
+theorem axl_route_data_crossbar_partial (c : Cfg) (rd : Bool) (hd : Disjoint c) (hn : 0 < c.n) (ins : List DirIn) :
+    HoldsD (Crossbar.machine c rd) c rd false (Crossbar.init c rd) Fifo.empty DGhost.empty ins :=
+  Crossbar.holdsD_of_inv c rd hd ins _ _ _ (Crossbar.inv_reset c rd hn) (Crossbar.dinv_reset c rd)
 
 /-! ## Bounded waiting -/
 
@@ -290,5 +321,43 @@ example :
     mDat xe o0 0 = true ∧ sDat xe o0 0 = true ∧ sDat xe o0 1 = false ∧ (o0.toS 0).dPay = 0x155 ∧
     mReq xd o1 0 = true ∧ sReq xd o1 1 = true ∧ sReq xd o1 0 = false := by
   decide
+
+/-- The environment assumption that excludes it: `DEnvOK.dataAfterAddr` fails in cycle 0. -/
+example : ¬ DEnvOK cfg22 DGhost.empty xe := by
+  intro h
+  rcases h.dataAfterAddr 0 (by decide) (by decide) with h1 | h1
+  · exact h1 rfl
+  · revert h1; decide
+
+/-- Non-vacuity of `axl_route_data_partial`: data presented together with its address, taken by the slave one cycle
+    before the address (inside NoDataBeforeAddr), the address then accepted by the same slave. -/
+def xf : DirIn :=
+  { ms := fun i => if i = 0 then { aValid := true, aAddr := 2, dValid := true, dPay := 0x155 } else {},
+    ss := fun j => if j = 1 then { dReady := true } else {} }
+def xg : DirIn :=
+  { ms := fun i => if i = 0 then { aValid := true, aAddr := 2 } else {},
+    ss := fun j => if j = 1 then { aReady := true } else {} }
+
+example :
+    let M := Shared.machine cfg22 false
+    let s0 := Shared.init cfg22 false
+    let o0 := M.out s0 xf
+    let dg1 := dgNext cfg22 false DGhost.empty xf o0
+    let o1 := M.out (M.next s0 xf) xg
+    mDat xf o0 0 = true ∧ sDat xf o0 1 = true ∧ sDat xf o0 0 = false ∧ mReq xf o0 0 = false ∧
+    dg1.ahead 0 = some 1 ∧ dg1.sd 1 = 1 ∧
+    mReq xg o1 0 = true ∧ sReq xg o1 1 = true ∧ (dgNext cfg22 false dg1 xg o1).ahead 0 = none ∧
+    (dgNext cfg22 false dg1 xg o1).wq 0 = [] := by
+  decide
+
+example : DEnvOK cfg22 DGhost.empty xf := by
+  refine ⟨?_, ?_, ?_⟩
+  · intro i _ h
+    by_cases e : i = 0
+    · subst e; right; exact ⟨rfl, rfl⟩
+    · simp [xf, e] at h
+  · intro i k _ h; cases h
+  · intro j _ h
+    by_cases e : j = 1 <;> simp [xf, e] at h
 
 end Litex.C08
